@@ -92,4 +92,37 @@ PROPS = {
         assumptions=["A10 (monitored, not proved): a Go program with goat's blocks inserted between statements is a transition system in which Track steps touch only trackIdStatus and user steps never "
                      "read it (frame conditions user_sim, track_stutter, lift of NonInterf.Instr); programs are deterministic (checked: the original is run twice); GOAT_PORT=0 so the service goroutine cannot fail"],
     ),
+    "C04": dict(lean=["GoatSpec.Properties.C04"], streams=["diff-pairs", "diff-histories", "diff-filter"], e2e=[],
+                trusted=["modelled, not verified: go-git tree diff, rename detection, diffmatchpatch line diff and blame (inputs of the model: chunk lists, blame vectors, commit table — computed by the harness by calling go-git directly on the same repository, never through goat); "
+                         "the git CLI (repository construction, `git cat-file` contents the judge compares against); path eligibility is an input here (modelled and proved in C13)"],
+                assumptions=["A4: go-git chunks concatenate to the two blobs (monitored: the judge compares against git cat-file contents, not against the chunks)",
+                             "A5: diffmatchpatch trims the common leading/trailing lines (monitored by the bound clause of judge:diff on every precision 2/3 answer)",
+                             "A6: go-git blame is faithful: when old is an ancestor of new, the lines of the new file blamed to old or one of its ancestors occur, in order, in old's version of the file (monitored: judge:diff on every precision 1 answer of an ancestor history)",
+                             "files end with a newline (Go sources after gofmt); an unterminated last line is the recorded known finding D-C04-2"]),
+    "C17": dict(lean=["GoatSpec.Properties.C17"], streams=["diff-exact", "diff-histories"], e2e=["history-pairs"],
+                trusted=["modelled, not verified: go-git (tree diff, rename detection, diffmatchpatch, blame), the git CLI; the instrumenter below the diff stage is exercised end to end, not modelled here (C01-C03, C05)"],
+                assumptions=["A10: diffmatchpatch returns a script that keeps every common line when all lines are unique and the common lines appear in the same order (monitored: judge:exact on every answer of diff-exact)",
+                             "A6 (precision 1 exactness): go-git blame attributes a unique line to the commit that introduced it"]),
+    "C16": dict(
+        lean=["GoatSpec.Properties.C16"],
+        streams=["config-init", "config-load"],
+        e2e=[],
+        trusted=["modelled, not verified: gopkg.in/yaml.v3 on the emitted shapes (line-level loader, tied on every generated file - A9), text/template execution of the parsed segment table, "
+                 "cobra flag parsing, go-git revision resolution (a parameter of the model: the harness asks the git CLI and adds go-git's hash-prefix rule), os file API",
+                 "abstractions: Go's nil slice and the empty slice are both [] (goat init and the emitted YAML never produce an empty non-nil slice); strconv.Quote is modelled on printable text plus newline, tab, carriage return"],
+        assumptions=["A9: yaml.v3 agrees with the line-level loader on the emitted shapes (monitored: real LoadConfig vs model load on every generated and mutated file)"],
+    ),
+    "C17": dict(lean=["GoatSpec.Properties.C17"], streams=["diff-exact", "diff-histories"], e2e=["history-pairs"],
+                trusted=["modelled, not verified: go-git (tree diff, rename detection, diffmatchpatch, blame), the git CLI; the instrumenter below the diff stage is exercised end to end, not modelled here (C01-C03, C05)"],
+                assumptions=["A10: diffmatchpatch returns a script that keeps every common line when all lines are unique and the common lines appear in the same order (monitored: judge:exact on every answer of diff-exact)",
+                             "A6 (precision 1 exactness): go-git blame attributes a unique line to the commit that introduced it"]),
+    "C16": dict(
+        lean=["GoatSpec.Properties.C16"],
+        streams=["config-init", "config-load"],
+        e2e=[],
+        trusted=["modelled, not verified: gopkg.in/yaml.v3 on the emitted shapes (line-level loader, tied on every generated file - A9), text/template execution of the parsed segment table, "
+                 "cobra flag parsing, go-git revision resolution (a parameter of the model: the harness asks the git CLI and adds go-git's hash-prefix rule), os file API",
+                 "abstractions: Go's nil slice and the empty slice are both [] (goat init and the emitted YAML never produce an empty non-nil slice); strconv.Quote is modelled on printable text plus newline, tab, carriage return"],
+        assumptions=["A9: yaml.v3 agrees with the line-level loader on the emitted shapes (monitored: real LoadConfig vs model load on every generated and mutated file)"],
+    ),
 }
